@@ -32,17 +32,26 @@ func TestVerif(t *testing.T) {
 			panic(r)
 		}
 	}()
-	run, ok := registry[job.Prop]
-	if !ok {
-		t.Fatalf("unknown property %q", job.Prop)
+	if job.Replay != "" {
+		runReplay(c, job.Replay)
+	} else {
+		run, ok := registry[job.Prop]
+		if !ok {
+			t.Fatalf("unknown property %q", job.Prop)
+		}
+		run(t, c)
 	}
-	run(t, c)
 	if err := c.finish(); err != nil {
 		t.Fatal(err)
 	}
 }
 
 var registry = map[string]func(t *testing.T, c *Collector){
+	"C03": func(t *testing.T, c *Collector) {
+		c.res.Rule = "every crash point (between consecutive file-system mutations) and every torn byte-prefix of every write of the last op of every history of <= depth ops (Put/Remove/Flush/IndexGC/PrimaryGC/Close+Open) after each preamble x configuration, incl. the initial Open; recovery by the real OpenStore; oracle: per-key allowed-value sets + continuation battery through GC and reopen; evaluations = distinct (image, allowed-set) pairs recovered; non-trivial = torn-write images"
+		runCrashScenarios(c, c03Scenarios("C03", c.job.Tier))
+		c.count("nontrivial", c.res.Counters["torn_images"])
+	},
 	"C15": func(t *testing.T, c *Collector) { runC15(c) },
 	"C02": func(t *testing.T, c *Collector) {
 		c.res.Rule = "every sequence of <= depth ops with Close/reopen (snapshot kept / deleted / damaged / double Close) and GC cycles at every position (<= 2 reopens per history); at the end the directory image is forked and reopened through the snapshot and through a rescan and both must denote identical record lists and reads; non-trivial = history contains a reopen and ends with a non-empty store"
@@ -51,6 +60,8 @@ var registry = map[string]func(t *testing.T, c *Collector){
 	"C07": func(t *testing.T, c *Collector) {
 		c.res.Rule = "fsck (independent reader of every file format) on every quiescent state reached: after Flush against the live bucket table, after Close against snapshot and rescan; histories as in C04; non-trivial = a GC op mutated the file system"
 		runSeqScenarios(c, gcScenarios("C07", c.job.Tier))
+		runCrashScenarios(c, c03Scenarios("C07", c.job.Tier))
+		c.res.Engine = "S + X (fsck on every quiescent state of the GC history enumeration and on every recovered crash image)"
 	},
 	"C13": func(t *testing.T, c *Collector) {
 		c.res.Rule = "freed-location ledger on every history of the C04 universe: the multiset of locations that stopped being current must equal the multiset of entries ever appended to the freelist (from the MemFS log) and, after a complete cycle, the multiset presented to the primary GC; non-trivial = at least one location was superseded"
